@@ -85,6 +85,16 @@ theorem fromBytes_ok_inv {ck : Bool} {bs : List UInt8} {hd : Header}
   · simpa using c6
   · rw [← h]; congr 1; omega
 
+/-- a 20-byte prefix of a list that starts with 20 known bytes is those bytes -/
+theorem hdr_eq_of_append {hdr rest : List UInt8} {b0 b1 b2 b3 b4 b5 b6 b7 b8 b9 b10 b11 b12 b13 b14
+    b15 b16 b17 b18 b19 : UInt8} {rest' : List UInt8} (hl : hdr.length = 20)
+    (h : hdr ++ rest = b0 :: b1 :: b2 :: b3 :: b4 :: b5 :: b6 :: b7 :: b8 :: b9 :: b10 :: b11 :: b12 ::
+      b13 :: b14 :: b15 :: b16 :: b17 :: b18 :: b19 :: rest') :
+    hdr = [b0, b1, b2, b3, b4, b5, b6, b7, b8, b9, b10, b11, b12, b13, b14, b15, b16, b17, b18, b19] := by
+  have : hdr ++ rest = [b0, b1, b2, b3, b4, b5, b6, b7, b8, b9, b10, b11, b12, b13, b14, b15, b16,
+      b17, b18, b19] ++ rest' := by simpa using h
+  exact (List.append_inj this (by simp [hl])).1
+
 /-- `from_bytes` on at least 20 bytes, in closed form -/
 theorem fromBytes_cons20 (ck : Bool)
     (b0 b1 b2 b3 b4 b5 b6 b7 b8 b9 b10 b11 b12 b13 b14 b15 b16 b17 b18 b19 : UInt8)
